@@ -194,9 +194,10 @@ NO_PROBE = False      # set by check.py after a ProbeUnavailable: corpora are th
 
 
 def resolve_names(prop: str, items):
-    """NON-ASCII identifiers are outside the Coq model's domain (Model/Heck.v is stated over ASCII bytes). A variant with such an
-    identifier and no explicit name gets `model_name`: what the Rust reference (harness/genprobe `mod reference`, written on heck
-    itself) makes of the identifier under the enum's serialize_all style. The model then treats it as a declared spelling."""
+    """NON-ASCII identifiers are outside Model/Heck.v (stated over ASCII bytes). A variant with such an identifier and no explicit name
+    gets `model_name`: what Model/HeckU.v (the same code over scalar values, instantiated with the probe's character table) makes of
+    the identifier under the enum's serialize_all style — or, for identifiers with U+03A3, what the Rust reference (harness/genprobe
+    `mod reference`, written on heck itself) makes of it. The rest of the model then treats it as a declared spelling."""
     todo = []
     for it in items:
         style = next((m.s for m in it.metas if m.kind == "sall"), None)
@@ -213,19 +214,65 @@ def resolve_names(prop: str, items):
                 it.variants = keep
                 it._lost_variants = True       # (classify then leaves the definition out: it is no longer the one its family meant)
         return
+    names = unicode_names(prop, [("convertu", st, v.ident) for v, st in todo])
+    for (v, st), nm in zip(todo, names):
+        # (an unknown style: the model rejects the definition on its own)
+        v.model_name = v.ident if nm is None else nm
+
+
+# where the names of non-ASCII identifiers came from in this run (evidence): Model/HeckU.v instantiated with the probe's character
+# table, or — identifiers with U+03A3, outside that model's domain — the Rust reference on heck
+NAME_STATS = {"named_by_the_unicode_model": 0, "named_by_the_rust_reference": 0, "model_and_reference_disagree": 0}
+
+
+def unicode_names(prop, reqs):
+    """reqs: [("convertu", style | None, ident) | ("snakifyu", None, ident)] -> [name | None].  The probe prints, per request, the
+    real result, the reference's, and the character table (Rust's own `char` methods for every scalar value in play); the
+    extracted Model/HeckU.v evaluates the request on that table.  The model's answer is the name whenever it has one."""
     binp, err = R.build_genprobe()
     if binp is None:
         raise ProbeUnavailable("genprobe (the generator sources of /repo compiled as a library) does not build: " + str(err)[-1500:])
-    lines = ["caseu %d %s %s" % (n, hx(st) if st is not None else "-", hx(v.ident)) for n, (v, st) in enumerate(todo)]
-    obs, died = R.run_genprobe(binp, lines, os.path.join(R.WORK, prop, "names"))
-    for n, (v, st) in enumerate(todo):
-        parts = dict(p.split("=", 1) for p in obs.get(n, "").split("|") if "=" in p)
-        ref = parts.get("ref", "")
-        if not ref.startswith("x"):
-            # an unknown style: the model rejects the definition on its own
-            v.model_name = v.ident
+    lines = []
+    for n, (kind, st, ident) in enumerate(reqs):
+        lines.append("caseu %d %s %s" % (n, hx(st) if st is not None else "-", hx(ident)) if kind == "convertu" else "snakifyu %d %s" % (n, hx(ident)))
+    d = os.path.join(R.WORK, prop, "names")
+    obs, died = R.run_genprobe(binp, lines, d)
+    parts = [dict(p.split("=", 1) for p in obs.get(n, "").split("|") if "=" in p) for n in range(len(reqs))]
+    path = os.path.join(d, "unicode_model.txt")
+    with open(path, "w") as f:
+        f.write("def 0 %s\n" % Item("E", []).sexp())
+        for n, (kind, st, ident) in enumerate(reqs):
+            tab = parts[n].get("tab", "")
+            if kind == "convertu" and parts[n].get("ref", "").startswith("x"):
+                f.write("q %d 0 casing convertu %s %s %s\n" % (n, hx(st) if st is not None else "-", hx(ident), tab))
+            elif kind == "snakifyu":
+                f.write("q %d 0 casing snakifyu %s %s\n" % (n, hx(ident), tab))
+    mo = R.run_model(path)
+    out = []
+    for n in range(len(reqs)):
+        ref, m = parts[n].get("ref", ""), mo.get(n, "")
+        if m.startswith("x"):
+            NAME_STATS["named_by_the_unicode_model"] += 1
+            if ref.startswith("x") and ref != m:
+                NAME_STATS["model_and_reference_disagree"] += 1
+            out.append(bytes.fromhex(m[1:]).decode("utf-8"))
+        elif ref.startswith("x"):
+            NAME_STATS["named_by_the_rust_reference"] += 1
+            out.append(bytes.fromhex(ref[1:]).decode("utf-8"))
         else:
-            v.model_name = bytes.fromhex(ref[1:]).decode("utf-8")
+            out.append(None)
+    return out
+
+
+def char_tables(prop, idents):
+    """the probe's character table for each identifier (None without a probe)"""
+    if NO_PROBE:
+        return {}
+    binp, err = R.build_genprobe()
+    if binp is None:
+        raise ProbeUnavailable("genprobe (the generator sources of /repo compiled as a library) does not build: " + str(err)[-1500:])
+    obs, died = R.run_genprobe(binp, ["chartab %d %s" % (n, hx(i[2:] if i.startswith("r#") else i)) for n, i in enumerate(idents)], os.path.join(R.WORK, prop, "tables"))
+    return {i: obs.get(n) for n, i in enumerate(idents)}
 
 
 def classify(prop: str, items, extra_kind=None):
